@@ -198,3 +198,9 @@ package raftlog
 //@     requires [only_files_before_the_cut] asked && fi >= 0 ==> 0 <= rangeindex && rangeindex < fi && recv == old(l.files[rangeindex])
 //@     frame nothing
 //@   ensures [kept_files_stay_in_order] result == nil && asked && fi >= 0 ==> len(l.files) == old(len(l.files)) - fi && (forall k int :: 0 <= k && k < len(l.files) ==> l.files[k] == old(l.files[fi + k]))
+
+// After a reopen the next free slot of the current file is recomputed by a binary search over the slot table: the search
+// covers ALL maxNumEntries slots (a file can be exactly full: rotation is lazy), so the answer ranges over 0..maxNumEntries.
+//@ func (*logFile).firstEmptySlot
+//@   call sort.Search
+//@     requires [whole_slot_table_searched] arg0 == maxNumEntries
